@@ -22,9 +22,17 @@ RULE = ('the DENOTED code-point sequence is chosen first (0..10 code points over
         'point 4.3.7) reads back as the denoted code points; length law - string.length of L, i(L), w(L), L + M is the number of '
         'denoted code points; quote-identity law - string.quote(string.unquote(L)) == L is true; unquoted law - for contents of '
         'ASCII letters and digits only, string.unquote(L) is emitted as exactly the content.  Distinct by literal text; '
-        'non-trivial = the literal contains an escape sequence, a continuation or a code point outside printable ASCII.  A failing '
-        'observation is a known finding only if the case exhibits a bad feature listed for the sub-law that failed (the features '
-        'are computed from the generated case, never from the output); all other cases are strict.')
+        'non-trivial = the literal contains an escape sequence, a continuation or a code point outside printable ASCII.  '
+        'Signatures: the unchanged tree stores quoted strings as escaped text, which breaks the property for recognisable input '
+        'shapes; shapes() names them from the GENERATED case alone (spelling and denoted classes, never the output): four '
+        'source-reading shapes that affect every law (hex escape terminated by a tab, continuation in double quotes, CR/FF '
+        'continuations, escaped space) and law-specific ones (kept escapes for length and ==, private-use before hex/blank, lost '
+        'terminators, interpolated private-use / control / non-alphanumeric characters, raw newline after the round trip), each '
+        'with the coarse observed class.  A failing observation whose case exhibits none of the shapes for the law and channel '
+        'that failed is reported as law|no-listed-feature|channel|observed and is never listed; a token that reads back exactly '
+        'as the denoted string with its hex-spelt controls re-read in base 10 is named hex-escape-read-in-base-10 (a repaired '
+        'defect, not listed).  The share of strict observations is in the stats (observations_strict:* / '
+        'observations_with_listed_shape:*).')
 LEVEL_TEXT = ('Reference-decoder monitor: what the source literal denotes is fixed by construction (and re-checked by decoding the '
               'literal), what the output denotes is decided by an independent CSS string-token decoder; counts and equality are '
               'observed through string.length and ==.')
@@ -418,16 +426,19 @@ def shapes(law, chan, case):
             out.append('length|kept-escape')
         if not direct_like and any(k in CONTROL or nonascii_nonalnum(o) for o, k, _ in seq):
             out.append('length|interpolated-control-or-non-alphanumeric')
+    if law == 'quote' and chan == 'token' and any(k == 'newline' for _, k, _ in seq):
+        out.append('quote|newline-raw-after-round-trip')
     if law in ('token', 'quote') and chan != 'equal':
         follows = [(seq[i], seq[i + 1] if i + 1 < len(seq) else None) for i in range(len(seq))]
         if direct_like:
+            # (the token emitted for quote(unquote(L)) is printed by the same code: same shapes, same names)
             if any(a[1] == 'private-use' and b is not None and b[1] in ('space', 'tab', 'digit', 'hexletter') for a, b in follows):
-                out.append('%s|private-use-before-hex-or-blank' % law)
+                out.append('token|private-use-before-hex-or-blank')
             lost = any(kh and b is not None and b[1] == 'space' for kh, (a, b) in zip(kept_hex, follows))
             if c2 and c1 and kept_hex[len(c1) - 1] and c2[0][1] in ('space', 'tab', 'digit', 'hexletter'):
                 lost = True
             if lost:
-                out.append('%s|kept-escape-loses-its-terminator' % law)
+                out.append('token|kept-escape-loses-its-terminator')
         else:
             if any(k == 'private-use' for _, k, _ in seq):
                 out.append('token|interpolated-private-use')
@@ -435,9 +446,14 @@ def shapes(law, chan, case):
             if any(c and b is not None and b[1] == 'space' for c, (a, b) in zip(ctl, follows)) or \
                     (chan in ('wrap', 'double') and ctl and ctl[-1]):
                 out.append('token|interpolated-control-loses-its-terminator')
-    if law == 'quote' and kept:
+    if law == 'quote' and chan == 'equal' and kept:
         out.append('quote|kept-escape')
     return out
+
+
+def coarse(obs):
+    """Observed class as it enters the signature of a listed shape."""
+    return 'wrong-content' if obs.startswith('wrong-content') else obs.split('(')[0]
 
 
 # ---------------------------------------------------------------- expressions of a case
@@ -626,10 +642,15 @@ def judge_case(ctx, case, results):
                 shape_cache[(law, chan)] = shapes(law, chan, case)
             bad = shape_cache[(law, chan)]
             ctx.stat(('observations_with_listed_shape:' if bad else 'observations_strict:') + law)
+            ctx.seen('observed', '%s:%s:%s' % (law, 'strict' if not bad else 'listed-shape', coarse(obs)))
             if holds:
                 ctx.stat('held:' + law)
                 if not bad:
                     ctx.seen('strict-held', '%s:%s' % (law, chan))
+                    if chan in ('direct', 'interp', 'equal') and style == 'expanded':
+                        for f in fs1:
+                            if ':' in f and '>' not in f:
+                                ctx.seen('strict-held-class:spelling(%s)' % law, f)
                 continue
             allok = False
             ctx.stat('failed:' + law)
@@ -637,9 +658,9 @@ def judge_case(ctx, case, results):
             if obs == 'hex-escape-read-in-base-10' and not [b for b in bad if b.startswith('source|')]:
                 sig = '%s|hex-escape-read-in-base-10' % law
             elif bad:
-                sig = bad[0]
+                sig = bad[0] if bad[0].startswith('source|') else '%s|observed=%s' % (bad[0], coarse(obs))
             else:
-                sig = '%s|no-listed-feature|channel=%s|observed=%s' % (law, chan, obs)
+                sig = '%s|no-listed-feature|channel=%s|observed=%s' % (law, chan, coarse(obs))
             ctx.violation(sig, case, {
                 'law': law, 'channel': chan, 'style': style, 'expression': text, 'observed_class': obs,
                 'denoted': hexes(case['cps']) + (['+'] + hexes(case['cps2']) if chan == 'concat' else []),
